@@ -11,8 +11,10 @@ import (
 	"encoding/json"
 	"errors"
 	"fmt"
+	logslog "log/slog"
 	"os"
 	"os/exec"
+	"regexp"
 	"sort"
 	"strings"
 	"sync"
@@ -39,17 +41,24 @@ func ya(k string, v any) slog.Attr { return &yAttr{k, v} }
 type lockedRec struct {
 	mu     sync.Mutex
 	events []string
+	norm   func(string) string // masks what differs between two builds of the same scenario (a random logger name)
 }
 
 func (r *lockedRec) Write(p []byte) (int, error) {
 	sched.Point("Write")
 	r.mu.Lock()
-	r.events = append(r.events, string(p))
+	e := string(p)
+	if r.norm != nil {
+		e = r.norm(e)
+	}
+	r.events = append(r.events, e)
 	r.mu.Unlock()
 	return len(p), nil
 }
 
 var c08loggers []*slog.Entry
+
+var c08loggerName = regexp.MustCompile(`"logger":"[^"]*"`)
 
 type c08world struct {
 	rec    *lockedRec
@@ -280,6 +289,99 @@ func c08scenarios() []c08scenario {
 				for i := 0; i < cp; i++ {
 					t, i := t, i
 					cs = append(cs, func() { l.WriteThru(bg, slog.InfoLevel, fixedTime, 0, fmt.Sprintf("s7 thread %d call %d", t, i), own) })
+				}
+				w.calls = append(w.calls, cs)
+			}
+			return w
+		}},
+		{"S10 records longer than 1 KB next to short ones", 0, func(th, cp int) *c08world {
+			w := &c08world{rec: &lockedRec{}}
+			ls := []*slog.Entry{c08logger("s10j", "json", w.rec), c08logger("s10l", "logfmt", w.rec)}
+			long := strings.Repeat("0123456789abcdef", 90) // 1440 bytes
+			for t := 0; t < th; t++ {
+				var cs []func()
+				for i := 0; i < cp; i++ {
+					t, i := t, i
+					l := ls[t%2]
+					if (t+i)%2 == 0 {
+						cs = append(cs, func() {
+							l.Info(fmt.Sprintf("s10 thread %d call %d", t, i), ya("a", t), ya("big", long), ya("c", i), ya("tail", long[:700]))
+						})
+					} else {
+						cs = append(cs, func() { l.Info(fmt.Sprintf("s10 thread %d call %d", t, i), ya("a", t), ya("c", i)) })
+					}
+				}
+				w.calls = append(w.calls, cs)
+			}
+			return w
+		}},
+		{"S11 blank Println and Print calls before the concurrent calls", 0, func(th, cp int) *c08world {
+			w := &c08world{rec: &lockedRec{}}
+			ls := []*slog.Entry{c08logger("s11j", "json", w.rec), c08logger("s11c", "color", w.rec)}
+			ls[0].Println()
+			ls[1].Print("")
+			ls[0].Print("\n")
+			w.rec.events = nil
+			for t := 0; t < th; t++ {
+				var cs []func()
+				for i := 0; i < cp; i++ {
+					t, i := t, i
+					l := ls[t%2]
+					cs = append(cs, func() { l.Info(fmt.Sprintf("s11 thread %d call %d", t, i), ya("b", t), ya("a", i)) })
+				}
+				w.calls = append(w.calls, cs)
+			}
+			return w
+		}},
+		{"S12 Infof, Warnf and Errorf on the same logger", 0, func(th, cp int) *c08world {
+			w := &c08world{rec: &lockedRec{}}
+			l := c08logger("s12", "json", w.rec)
+			fs := []func(string, ...any) error{l.Infof, l.Warnf, l.Errorf}
+			for t := 0; t < th; t++ {
+				var cs []func()
+				for i := 0; i < cp; i++ {
+					t, i := t, i
+					f := fs[(t+i)%3]
+					cs = append(cs, func() { _ = f("s12 thread %d call %d: %s", t, i, strings.Repeat(string(rune('a'+t)), 8)) })
+				}
+				w.calls = append(w.calls, cs)
+			}
+			return w
+		}},
+		{"S13 groups nested two and three levels deep, a different one per thread", 0, func(th, cp int) *c08world {
+			w := &c08world{rec: &lockedRec{}}
+			ls := []*slog.Entry{c08logger("s13l", "logfmt", w.rec), c08logger("s13c", "color", w.rec)}
+			names := []string{"alpha", "omega", "mu"}
+			for t := 0; t < th; t++ {
+				var cs []func()
+				for i := 0; i < cp; i++ {
+					t, i := t, i
+					l := ls[t%2]
+					n := names[t%3]
+					cs = append(cs, func() {
+						l.Info(fmt.Sprintf("s13 thread %d call %d", t, i),
+							slog.NewGroupedAttr(n, ya("a", t), slog.NewGroupedAttr(n[:2]+"ner", ya("a", 1), ya("b", 2), slog.NewGroupedAttr("deep", ya("x", i), ya("y", t)), ya("c", 3)), ya("z", i)))
+					})
+				}
+				w.calls = append(w.calls, cs)
+			}
+			return w
+		}},
+		{"S14 one derived log/slog handler with bound attributes used by all threads", 0, func(th, cp int) *c08world {
+			w := &c08world{rec: &lockedRec{}}
+			l := c08logger("s14", "json", w.rec)
+			h := slog.NewSlogHandler(l, &slog.HandlerOptions{NoColor: true, JSON: true, NoSource: true, Level: slog.AlwaysLevel})
+			h = h.WithAttrs([]logslog.Attr{logslog.Int("a1", 1), logslog.String("a2", "two")})
+			w.rec.norm = func(e string) string { return c08loggerName.ReplaceAllString(e, `"logger":"*"`) } // the derived logger's name is random
+			for t := 0; t < th; t++ {
+				var cs []func()
+				for i := 0; i < cp; i++ {
+					t, i := t, i
+					cs = append(cs, func() {
+						r := logslog.NewRecord(fixedTime, logslog.LevelWarn, fmt.Sprintf("s14 thread %d call %d", t, i), 0)
+						r.AddAttrs(logslog.Int("b", t), logslog.Int("c", i), logslog.String(fmt.Sprintf("d%d", t), "own"))
+						_ = h.Handle(bg, r)
+					})
 				}
 				w.calls = append(w.calls, cs)
 			}
